@@ -336,8 +336,8 @@ pub fn new(parameters: &RawParameters, _ctx: &dyn Context) -> Result<Op, Error> 
                 for i in 0..3_usize {
                     T[i] += DT[i] * (t_obs - epoch);
                     R[i] += DR[i] * (t_obs - epoch);
-                    S += DS * (t_obs - epoch);
                 }
+                S += DS * (t_obs - epoch);
             }
         }
     }
